@@ -8,6 +8,14 @@ CHECKS = {
    text="Proof (Coq): sign(Compare a b) = epoch order, then Debian Policy 5.6.12 part-wise order of upstream, then of revision, for all versions without NUL bytes and of any length (C01.v: 5 theorems, closed under the global context). Tie: the hand-written model of Compare/verrevcmp is run against version.Compare on all pairs of short words over the version alphabet plus random long versions, and the implementation's sign is compared with the extracted Policy spec directly.",
    note="Trusted: Coq kernel; extraction (sampled in-kernel each run); Go harness and Python driver; the generator bounds the tie. Model: three loops of verrevcmp as suffix recursion, unbounded N epochs (Go: uint).",
    technique="Coq proof over a hand-written model + differential correspondence against version.Compare", ref="5/C01"),
+ "C02": dict(
+   text="Proof (Coq): reflexivity, antisymmetry, transitivity of <=, interchangeability of equal versions, Slice.Less is a strict weak order (sort.Sort's contract), and a merge sort over the same order returns a non-decreasing permutation, for all NUL-free versions of any length (C02.v: 8 theorems, closed). Tie: the laws are re-evaluated on version.Compare's own answers over all triples of a pool of adversarial versions, and sort.Sort(version.Slice) outputs are checked to be non-decreasing permutations under the model's order.",
+   note="Trusted: as C01. sort.Sort is the Go standard library (oracle): the theorem proves its precondition and the postcondition for Coq's Mergesort over the same order; the real sort's outputs are checked by the tie. NUL bytes are excluded (C02_needs_no_nul gives the counterexample).",
+   technique="Coq proof (order embedding into a lexicographic key) + differential correspondence and law evaluation on the implementation", ref="5/C02"),
+ "C03": dict(
+   text="Proof (Coq): any Unicode whitespace around the canonical text of a well-formed (epoch, upstream, revision) parses to exactly the triple; each rejection class of the property (non-numeric, negative, oversized, empty epoch; nothing after the colon; non-digit first character; character outside the upstream or revision alphabet; embedded or only whitespace) is rejected for every string of that shape; every accepted string round-trips through String (C03.v: 16 theorems, closed). Tie: version.Parse / String / MarshalControl / UnmarshalControl / MarshalText / UnmarshalText / encoding/json against the model on grammar renderings x Unicode whitespace, all short strings over a 14-symbol alphabet, single/double-edit near misses and raw bytes (valid and invalid UTF-8).",
+   note="Trusted: as C01. The model states Go's TrimSpace/IsSpace UTF-8 behaviour as 'a space encoding starts at a non-continuation byte' (argument in V11.v), validated by the tie. Error messages are not compared.",
+   technique="Coq proof over a hand-written model + differential correspondence against version.Parse/String", ref="5/C03"),
 }
 NOT_YET = {}
 
